@@ -7,6 +7,9 @@ use stretto_verif_rt as rt;
 
 pub struct Env {
     pub h: H,
+    /// client thread t >= 1 works through its own clone of the handle (`clones[t - 1]`); thread 0,
+    /// the setup and the post section use the handle the builder returned
+    pub clones: Vec<H>,
     pub sh: Shared,
     pub recs: Arc<Mutex<Vec<Rec>>>,
     pub snaps: Arc<Mutex<Vec<Snap>>>,
@@ -16,7 +19,15 @@ pub struct Env {
 }
 
 impl Env {
+    fn handle(&self, th: usize) -> &H {
+        if th >= 1 && th <= self.clones.len() {
+            &self.clones[th - 1]
+        } else {
+            &self.h
+        }
+    }
     pub fn exec(&self, th: usize, idx: usize, op: Op) {
+        let h = self.handle(th);
         let call = tick(&self.sh.clock);
         let call_ns = rt::now_ns();
         let mut wrote = None;
@@ -24,28 +35,29 @@ impl Env {
             Op::Ins { k, c, ttl_ms } => {
                 let v = Val { key: k, seq: Program::seq_of(th, idx) };
                 wrote = Some(v);
-                self.h.insert(k, v, c, ttl_ms)
+                h.insert(k, v, c, ttl_ms)
             }
             Op::Pres { k, c } => {
                 let v = Val { key: k, seq: Program::seq_of(th, idx) };
                 wrote = Some(v);
-                self.h.insert_if_present(k, v, c)
+                h.insert_if_present(k, v, c)
             }
-            Op::Rem { k } => self.h.remove(k),
-            Op::Get { k } => self.h.get(k),
+            Op::Rem { k } => h.remove(k),
+            Op::Get { k } => h.get(k),
             Op::Mut { k } => {
                 let v = Val { key: k, seq: Program::seq_of(th, idx) };
                 wrote = Some(v);
-                self.h.get_mut_write(k, v)
+                h.get_mut_write(k, v)
             }
-            Op::Ttl { k } => self.h.get_ttl(k),
-            Op::Clear => self.h.clear(),
-            Op::Wait => self.h.wait(),
+            Op::Ttl { k } => h.get_ttl(k),
+            Op::GetHold { k, ms } => h.get_hold(k, ms),
+            Op::Clear => h.clear(),
+            Op::Wait => h.wait(),
             Op::MaxCost { m } => {
-                self.h.update_max_cost(m);
-                Res::Int(self.h.max_cost())
+                h.update_max_cost(m);
+                Res::Int(h.max_cost())
             }
-            Op::Close => self.h.close(),
+            Op::Close => h.close(),
             Op::Adv { ms } => {
                 rt::advance(Duration::from_millis(ms));
                 Res::Unit
@@ -99,8 +111,10 @@ pub fn run_program(p: &Program) -> Result<Trace, String> {
     let _ = stretto::verif::take_evict_rounds();
     rt::world::setup_mode();
     let (h, sh) = build(&p.cfg, p.flavor).map_err(|e| format!("{:?}", e))?;
+    let clones: Vec<H> = (1..p.threads.len()).map(|_| h.clone()).collect();
     let env = Arc::new(Env {
         h,
+        clones,
         sh,
         recs: Arc::new(Mutex::new(Vec::new())),
         snaps: Arc::new(Mutex::new(Vec::new())),
